@@ -326,66 +326,84 @@ Lemma session_final mr n s hl loc body :
   is_redirect_status s = false -> session_step mr n (Resp s hl loc body) = SFinal s body.
 Proof. intros H. unfold session_step. now rewrite H. Qed.
 
+
 (* ------------------------------------------------------------------ *)
 (* 5. case analysis of the step functions                              *)
 (* ------------------------------------------------------------------ *)
-Lemma decide_cases cfg i u r w ev :
-  decide cfg i u r = (w, ev) ->
-  (is_allowed r (c_ua cfg) (u_text u) = true /\ w = WFetchSend u u false /\ ev = []) \/
-  (is_allowed r (c_ua cfg) (u_text u) = false /\ w = WIdle /\ ev = [EvSkipped i u]).
+Lemma decide_cases cfg i u cur hop r w ev :
+  decide cfg i u cur hop r = (w, ev) ->
+  (is_allowed r (c_ua cfg) (u_text cur) = true /\ w = WFetchSend u cur hop /\ ev = []) \/
+  (is_allowed r (c_ua cfg) (u_text cur) = false /\ w = WIdle /\ ev = [EvSkipped i u]).
 Proof.
-  unfold decide, pool_can_fetch. destruct (is_allowed r (c_ua cfg) (u_text u)); intros H; injection H as <- <-; auto.
+  unfold decide, pool_can_fetch. destruct (is_allowed r (c_ua cfg) (u_text cur)); intros H; injection H as <- <-; auto.
 Qed.
 
-Inductive pick_result (cfg : config) (p : pool) (i : nat) (u : url) : wstate -> list event -> Prop :=
-| PR_skip : pick_result cfg p i u WIdle [EvSkipped i u]
-| PR_norobots : c_robots cfg = false -> pick_result cfg p i u (WFetchSend u u false) []
-| PR_allowed r : pool_lookup p (u_origin u) = Some r -> is_allowed r (c_ua cfg) (u_text u) = true ->
-                 pick_result cfg p i u (WFetchSend u u false) []
-| PR_fetch : c_robots cfg = true -> pool_lookup p (u_origin u) = None ->
-             pick_result cfg p i u (WRobotsSend u (robots_url (u_origin u)) 0) [EvFetchStart i (u_origin u)].
+Inductive check_result (cfg : config) (p : pool) (i : nat) (u cur : url) (hop : bool) : wstate -> list event -> Prop :=
+| CR_skip : check_result cfg p i u cur hop WIdle [EvSkipped i u]
+| CR_norobots : c_robots cfg = false -> check_result cfg p i u cur hop (WFetchSend u cur hop) []
+| CR_allowed r : c_robots cfg = true -> pool_lookup p (u_origin cur) = Some r ->
+                 is_allowed r (c_ua cfg) (u_text cur) = true ->
+                 check_result cfg p i u cur hop (WFetchSend u cur hop) []
+| CR_wait : c_robots cfg = true -> pool_lookup p (u_origin cur) = None ->
+            check_result cfg p i u cur hop (WLockWait u cur hop) [].
 
-Lemma on_pick_cases cfg p i u f p' w ev :
-  on_pick cfg p i u f = (p', w, ev) -> p' = p /\ pick_result cfg p i u w ev.
+Lemma on_check_cases cfg p i u cur hop f w ev :
+  on_check cfg p i u cur hop f = (w, ev) -> check_result cfg p i u cur hop w ev.
 Proof.
-  unfold on_pick. destruct f; cbn [negb].
+  unfold on_check. destruct f; cbn [negb].
   - destruct (c_robots cfg) eqn:R; cbn [negb].
-    + destruct (pool_lookup p (u_origin u)) as [r|] eqn:L.
-      * destruct (decide cfg i u r) as [w0 ev0] eqn:D. intros H. injection H as <- <- <-. split; [reflexivity|].
-        apply decide_cases in D. destruct D as [[A [-> ->]] | [A [-> ->]]]; [now apply PR_allowed with r | constructor].
-      * intros H. injection H as <- <- <-. split; [reflexivity | now constructor].
-    + intros H. injection H as <- <- <-. split; [reflexivity | now constructor].
-  - intros H. injection H as <- <- <-. split; [reflexivity | constructor].
+    + destruct (pool_lookup p (u_origin cur)) as [r|] eqn:L.
+      * intros D. apply decide_cases in D. destruct D as [[A [-> ->]] | [A [-> ->]]]; [now apply CR_allowed with r | constructor].
+      * intros H. injection H as <- <-. now constructor.
+    + intros H. injection H as <- <-. now constructor.
+  - intros H. injection H as <- <-. constructor.
 Qed.
 
-Inductive resp_result (cfg : config) (p : pool) (i : nat) (u : url) : pool -> wstate -> list event -> Prop :=
-| RR_next t n' : resp_result cfg p i u p (WRobotsSend u t n') []
-| RR_postponed : resp_result cfg p i u p WIdle [EvPostponed i u]
-| RR_stored_ok rules : is_allowed rules (c_ua cfg) (u_text u) = true ->
-    resp_result cfg p i u (pool_store p (u_origin u) rules) (WFetchSend u u false) [EvStored i (u_origin u) rules]
-| RR_stored_no rules : is_allowed rules (c_ua cfg) (u_text u) = false ->
-    resp_result cfg p i u (pool_store p (u_origin u) rules) WIdle [EvSkipped i u; EvStored i (u_origin u) rules].
+Inductive lock_result (cfg : config) (p : pool) (i : nat) (u cur : url) (hop : bool) : wstate -> list event -> bool -> Prop :=
+| LR_skip : lock_result cfg p i u cur hop WIdle [EvSkipped i u] false
+| LR_allowed r : pool_lookup p (u_origin cur) = Some r -> is_allowed r (c_ua cfg) (u_text cur) = true ->
+                 lock_result cfg p i u cur hop (WFetchSend u cur hop) [] false
+| LR_fetch : pool_lookup p (u_origin cur) = None ->
+             lock_result cfg p i u cur hop (WRobotsSend u cur hop (robots_url (u_origin cur)) 0) [EvFetchStart i (u_origin cur)] true.
 
-Lemma store_cases cfg p i u rules p' w ev :
-  (let '(w0, ev0) := decide cfg i u rules in (pool_store p (u_origin u) rules, w0, ev0 ++ [EvStored i (u_origin u) rules])) = (p', w, ev) ->
-  resp_result cfg p i u p' w ev.
+Lemma on_lock_cases cfg p i u cur hop w ev keep :
+  on_lock cfg p i u cur hop = (w, ev, keep) -> lock_result cfg p i u cur hop w ev keep.
 Proof.
-  destruct (decide cfg i u rules) as [w0 ev0] eqn:D. intros H. injection H as <- <- <-.
+  unfold on_lock. destruct (pool_lookup p (u_origin cur)) as [r|] eqn:L.
+  - destruct (decide cfg i u cur hop r) as [w0 ev0] eqn:D. intros H. injection H as <- <- <-.
+    apply decide_cases in D. destruct D as [[A [-> ->]] | [A [-> ->]]]; [now apply LR_allowed with r | constructor].
+  - intros H. injection H as <- <- <-. now constructor.
+Qed.
+
+Inductive resp_result (cfg : config) (p : pool) (i : nat) (u cur : url) (hop : bool) : pool -> wstate -> list event -> bool -> Prop :=
+| RR_next t n' : resp_result cfg p i u cur hop p (WRobotsSend u cur hop t n') [] true
+| RR_postponed : resp_result cfg p i u cur hop p WIdle [EvPostponed i u] false
+| RR_stored_ok rules : is_allowed rules (c_ua cfg) (u_text cur) = true ->
+    resp_result cfg p i u cur hop (pool_store p (u_origin cur) rules) (WFetchSend u cur hop) [EvStored i (u_origin cur) rules] false
+| RR_stored_no rules : is_allowed rules (c_ua cfg) (u_text cur) = false ->
+    resp_result cfg p i u cur hop (pool_store p (u_origin cur) rules) WIdle [EvSkipped i u; EvStored i (u_origin cur) rules] false.
+
+Lemma store_cases cfg p i u cur hop rules p' w ev keep :
+  (let '(w0, ev0) := decide cfg i u cur hop rules in
+   (pool_store p (u_origin cur) rules, w0, ev0 ++ [EvStored i (u_origin cur) rules], false)) = (p', w, ev, keep) ->
+  resp_result cfg p i u cur hop p' w ev keep.
+Proof.
+  destruct (decide cfg i u cur hop rules) as [w0 ev0] eqn:D. intros H. injection H as <- <- <- <-.
   apply decide_cases in D. destruct D as [[A [-> ->]] | [A [-> ->]]]; now constructor.
 Qed.
 
-Lemma on_robots_response_cases cfg p i u n r p' w ev :
-  on_robots_response cfg p i u n r = (p', w, ev) -> resp_result cfg p i u p' w ev.
+Lemma on_robots_response_cases cfg p i u cur hop n r p' w ev keep :
+  on_robots_response cfg p i u cur hop n r = (p', w, ev, keep) -> resp_result cfg p i u cur hop p' w ev keep.
 Proof.
   unfold on_robots_response.
   destruct (session_step (c_max_redirects cfg) n r) as [t n'|st body| |].
-  - intros H. injection H as <- <- <-. constructor.
+  - intros H. injection H as <- <- <- <-. constructor.
   - destruct (status_action st body) as [data| |].
     + apply store_cases.
     + apply store_cases.
-    + intros H. injection H as <- <- <-. constructor.
+    + intros H. injection H as <- <- <- <-. constructor.
   - apply store_cases.
-  - intros H. injection H as <- <- <-. constructor.
+  - intros H. injection H as <- <- <- <-. constructor.
 Qed.
 
 Lemma set_worker_same ws i s : set_worker ws i s i = s.
@@ -394,8 +412,31 @@ Proof. unfold set_worker. now rewrite Nat.eqb_refl. Qed.
 Lemma set_worker_other ws i s j : j <> i -> set_worker ws i s j = ws j.
 Proof. intros H. unfold set_worker. destruct (Nat.eqb_spec j i); [contradiction | reflexivity]. Qed.
 
+Lemma lock_set_same l o v : lock_set l o v o = v.
+Proof. unfold lock_set. now rewrite origin_eqb_refl. Qed.
+
+Lemma lock_set_other l o v o2 : o2 <> o -> lock_set l o v o2 = l o2.
+Proof.
+  intros H. unfold lock_set. destruct (origin_eqb o o2) eqn:E; [|reflexivity].
+  apply origin_eqb_eq in E. congruence.
+Qed.
+
+Lemma pool_lookup_store_same p o r : pool_lookup (pool_store p o r) o = Some r.
+Proof. rewrite pool_lookup_store, origin_eqb_refl. reflexivity. Qed.
+
+Lemma pool_lookup_store_other p o r o2 : o2 <> o -> pool_lookup (pool_store p o r) o2 = pool_lookup p o2.
+Proof.
+  intros H. rewrite pool_lookup_store. destruct (origin_eqb o o2) eqn:E; [|reflexivity].
+  apply origin_eqb_eq in E. congruence.
+Qed.
+
+Lemma origin_eq_dec (a b : origin) : {a = b} + {a <> b}.
+Proof.
+  destruct (origin_eqb a b) eqn:E; [left; now apply origin_eqb_eq | right; intros H; apply origin_eqb_eq in H; congruence].
+Qed.
+
 (* ------------------------------------------------------------------ *)
-(* 6. trace predicates (newest event first)                             *)
+(* 6. trace predicates (newest event first) and the invariant           *)
 (* ------------------------------------------------------------------ *)
 (* P e older: a condition on an event given everything that happened before it *)
 Fixpoint trace_all (P : event -> list event -> Prop) (t : list event) : Prop :=
@@ -411,131 +452,597 @@ Proof.
   - cbn [app trace_all] in H. exact (IH _ (proj2 H) e t1 eq_refl).
 Qed.
 
-Lemma trace_all_app P ev t :
-  trace_all P t -> (forall t2 e t1, ev = t2 ++ e :: t1 -> P e (t1 ++ t)) -> trace_all P (ev ++ t).
-Proof.
-  intros Ht. induction ev as [|e ev IH]; intros H; cbn [app trace_all]; [assumption|]. split.
-  - exact (H [] e ev eq_refl).
-  - apply IH. intros t2 e' t1 E. apply (H (e :: t2) e' t1). now rewrite E.
-Qed.
+Definition stored_in (o : origin) (t : list event) : Prop := exists w r, In (EvStored w o r) t.
 
-Definition ev_worker (e : event) : nat :=
-  match e with
-  | EvFetchStart w _ | EvRobotsReq w _ _ | EvStored w _ _ | EvPostponed w _ | EvSkipped w _ | EvReq w _ _ _ => w
-  end.
+(* an acquisition for the origin of cur is complete and its rules allow cur *)
+Definition cleared (cfg : config) (cur : url) (t : list event) : Prop :=
+  exists w r, In (EvStored w (u_origin cur) r) t /\ is_allowed r (c_ua cfg) (u_text cur) = true.
 
-(* the gate: an initial request is preceded by a completed acquisition that allows it *)
+(* the gate: EVERY request of an item's session - the initial one and every redirect hop - is
+   preceded by a completed acquisition for the origin of the requested URL whose rules allow it *)
 Definition gate_cond (cfg : config) (e : event) (older : list event) : Prop :=
   match e with
-  | EvReq _ u cur false =>
-      cur = u /\ exists w r, In (EvStored w (u_origin u) r) older /\ is_allowed r (c_ua cfg) (u_text u) = true
+  | EvReq _ u cur hop => (hop = false -> cur = u) /\ cleared cfg cur older
   | _ => True
   end.
 
-(* a fetch begins only when nothing has been stored for the origin *)
-Definition start_cond (e : event) (older : list event) : Prop :=
+(* robots.txt is neither requested nor an acquisition begun for an origin whose rules are stored,
+   and rules are stored for an origin at most once *)
+Definition once_cond (e : event) (older : list event) : Prop :=
   match e with
-  | EvFetchStart _ o => forall w r, ~ In (EvStored w o r) older
+  | EvRobotsReq _ o _ | EvFetchStart _ o | EvStored _ o _ => ~ stored_in o older
   | _ => True
   end.
 
-(* a robots.txt request on the wire belongs to an acquisition its worker has begun and not finished *)
-Definition own_open (w : nat) (o : origin) (older : list event) : Prop :=
-  exists tb ta, older = tb ++ EvFetchStart w o :: ta /\
-                Forall (fun e => ev_worker e = w -> exists t, e = EvRobotsReq w o t) tb.
-Definition wire_cond (e : event) (older : list event) : Prop :=
+(* rules are stored only by a worker that requested robots.txt for that origin; requests of a
+   robots.txt session belong to an acquisition begun by that worker *)
+Definition acq_cond (e : event) (older : list event) : Prop :=
   match e with
-  | EvRobotsReq w o _ => own_open w o older
-  | EvStored w o _ => own_open w o older /\ exists t, In (EvRobotsReq w o t) older
+  | EvStored w o _ => exists t, In (EvRobotsReq w o t) older
+  | EvRobotsReq w o _ => In (EvFetchStart w o) older
   | _ => True
   end.
 
-(* with one worker: nothing is stored for the origin when its robots.txt is requested *)
-Definition seq_cond (e : event) (older : list event) : Prop :=
-  match e with
-  | EvRobotsReq _ o _ => forall w r, ~ In (EvStored w o r) older
-  | _ => True
+Definition acq_of (w : wstate) : option origin :=
+  match w with
+  | WRobotsSend _ cur _ _ _ | WRobotsWait _ cur _ _ _ => Some (u_origin cur)
+  | _ => None
+  end.
+
+Definition wcur (w : wstate) : option (url * url * bool) :=
+  match w with
+  | WIdle => None
+  | WCheck u c h | WLockWait u c h | WRobotsSend u c h _ _ | WRobotsWait u c h _ _
+  | WFetchSend u c h | WFetchWait u c h => Some (u, c, h)
   end.
 
 Record inv (cfg : config) (s : gstate) : Prop := {
   inv_pool_stored : forall o r, pool_lookup (g_pool s) o = Some r -> exists w, In (EvStored w o r) (g_trace s);
-  inv_stored_pool : forall w o r, In (EvStored w o r) (g_trace s) -> pool_lookup (g_pool s) o <> None;
-  inv_send : c_robots cfg = true -> forall i u cur, g_workers s i = WFetchSend u cur false ->
-             cur = u /\ exists w r, In (EvStored w (u_origin u) r) (g_trace s) /\ is_allowed r (c_ua cfg) (u_text u) = true;
-  inv_open : forall i u t n, (g_workers s i = WRobotsSend u t n \/ g_workers s i = WRobotsWait u t n) ->
-             own_open i (u_origin u) (g_trace s);
-  inv_wait : forall i u t n, g_workers s i = WRobotsWait u t n -> exists t', In (EvRobotsReq i (u_origin u) t') (g_trace s);
+  inv_stored_pool : forall o, stored_in o (g_trace s) -> pool_lookup (g_pool s) o <> None;
+  inv_send : c_robots cfg = true -> forall i u cur hop, g_workers s i = WFetchSend u cur hop -> cleared cfg cur (g_trace s);
+  inv_hop0 : forall i u cur, wcur (g_workers s i) = Some (u, cur, false) -> cur = u;
+  inv_acq_lock : forall i o, acq_of (g_workers s i) = Some o -> g_locks s o = true;
+  inv_excl : forall i j o, i <> j -> acq_of (g_workers s i) = Some o -> acq_of (g_workers s j) = Some o -> False;
+  inv_acq_pool : forall i o, acq_of (g_workers s i) = Some o -> pool_lookup (g_pool s) o = None;
+  inv_acq_started : forall i o, acq_of (g_workers s i) = Some o -> In (EvFetchStart i o) (g_trace s);
+  inv_wait : forall i u cur hop t n, g_workers s i = WRobotsWait u cur hop t n ->
+             exists t', In (EvRobotsReq i (u_origin cur) t') (g_trace s);
+  inv_norobots : c_robots cfg = false -> (forall i, acq_of (g_workers s i) = None) /\
+                 (forall i u cur hop, g_workers s i <> WLockWait u cur hop) /\
+                 (forall e, In e (g_trace s) -> match e with EvFetchStart _ _ | EvRobotsReq _ _ _ | EvStored _ _ _ => False | _ => True end);
   inv_gate : c_robots cfg = true -> trace_all (gate_cond cfg) (g_trace s);
-  inv_start : trace_all start_cond (g_trace s);
-  inv_wire : trace_all wire_cond (g_trace s);
+  inv_once : trace_all once_cond (g_trace s);
+  inv_acq : trace_all acq_cond (g_trace s);
 }.
-
-Lemma own_open_cons w o e t :
-  own_open w o t -> (ev_worker e = w -> exists x, e = EvRobotsReq w o x) -> own_open w o (e :: t).
-Proof.
-  intros [tb [ta [-> F]]] H. exists (e :: tb), ta. split; [reflexivity | now constructor].
-Qed.
-
-Lemma own_open_app w o ev t :
-  own_open w o t -> Forall (fun e => ev_worker e <> w) ev -> own_open w o (ev ++ t).
-Proof.
-  intros H F. induction F as [|e ev He F IH]; [assumption|]. cbn [app].
-  apply own_open_cons; [assumption | intros E; contradiction].
-Qed.
-
-Lemma own_open_start w o t : own_open w o (EvFetchStart w o :: t).
-Proof. exists [], t. split; [reflexivity | constructor]. Qed.
 
 Lemma inv_init cfg : inv cfg g_init.
 Proof.
   constructor; cbn; try discriminate; try contradiction; auto.
-  - intros i u t n [H|H]; discriminate.
+  - intros o [w [r []]].
+  - intros _. repeat split; try discriminate. intros e [].
+Qed.
+
+Lemma stored_in_app o ev t : stored_in o t -> stored_in o (ev ++ t).
+Proof. intros [w [r H]]. exists w, r. apply in_or_app. now right. Qed.
+
+Lemma cleared_app cfg cur ev t : cleared cfg cur t -> cleared cfg cur (ev ++ t).
+Proof. intros [w [r [H A]]]. exists w, r. split; [apply in_or_app; now right | assumption]. Qed.
+
+Lemma cleared_cons cfg cur e t : cleared cfg cur t -> cleared cfg cur (e :: t).
+Proof. apply (cleared_app cfg cur [e]). Qed.
+
+Lemma not_stored_of_pool_none cfg s o : inv cfg s -> pool_lookup (g_pool s) o = None -> ~ stored_in o (g_trace s).
+Proof. intros I H S. now apply (inv_stored_pool _ _ I o S). Qed.
+
+Lemma cleared_of_pool cfg s cur r :
+  inv cfg s -> pool_lookup (g_pool s) (u_origin cur) = Some r -> is_allowed r (c_ua cfg) (u_text cur) = true ->
+  cleared cfg cur (g_trace s).
+Proof. intros I L A. destruct (inv_pool_stored _ _ I _ _ L) as [w H]. now exists w, r. Qed.
+
+(* a stored event for another origin does not count as stored for o *)
+Lemma stored_in_cons_other o e t :
+  (forall w r, e <> EvStored w o r) -> stored_in o (e :: t) -> stored_in o t.
+Proof. intros Hn [w [r [H|H]]]; [exfalso; now apply (Hn w r) | now exists w, r]. Qed.
+
+(* ------------------------------------------------------------------ *)
+(* 7. every step preserves the invariant                                *)
+(* ------------------------------------------------------------------ *)
+Ltac wcase j i :=
+  let E := fresh "E" in
+  destruct (Nat.eq_dec j i) as [E|E];
+  [ subst j; rewrite ?set_worker_same in * | rewrite ?(set_worker_other _ _ _ _ E) in * ].
+
+(* a step that changes only worker i, to a state outside any acquisition, appending events that
+   are neither robots events nor requests *)
+Definition quiet (e : event) : Prop :=
+  match e with EvPostponed _ _ | EvSkipped _ _ => True | _ => False end.
+
+Lemma trace_all_quiet (P : event -> list event -> Prop) ev t :
+  (forall e older, quiet e -> P e older) -> Forall quiet ev -> trace_all P t -> trace_all P (ev ++ t).
+Proof.
+  intros HP F Ht. induction F as [|e ev He F IH]; [assumption|]. cbn [app trace_all]. split; [now apply HP | assumption].
+Qed.
+
+Lemma gate_quiet cfg e older : quiet e -> gate_cond cfg e older.
+Proof. destruct e; cbn; tauto. Qed.
+Lemma once_quiet e older : quiet e -> once_cond e older.
+Proof. destruct e; cbn; tauto. Qed.
+Lemma acq_quiet e older : quiet e -> acq_cond e older.
+Proof. destruct e; cbn; tauto. Qed.
+
+Lemma stored_in_quiet o ev t : Forall quiet ev -> stored_in o (ev ++ t) -> stored_in o t.
+Proof.
+  intros F [w [r H]]. apply in_app_or in H. destruct H as [H|H]; [|now exists w, r].
+  exfalso. rewrite Forall_forall in F. apply F in H. exact H.
+Qed.
+
+(* generic: worker i moves to w' (not in an acquisition, not WFetchSend unless cleared), pool and
+   locks unchanged, quiet events appended *)
+Lemma inv_quiet_step cfg s i w' ev l' :
+  inv cfg s ->
+  (forall o, l' o = g_locks s o) ->
+  acq_of (g_workers s i) = None ->
+  acq_of w' = None ->
+  Forall quiet ev ->
+  (c_robots cfg = true -> forall u cur hop, w' = WFetchSend u cur hop -> cleared cfg cur (g_trace s)) ->
+  (forall u cur, wcur w' = Some (u, cur, false) -> cur = u) ->
+  (c_robots cfg = false -> forall u cur hop, w' <> WLockWait u cur hop) ->
+  inv cfg {| g_pool := g_pool s; g_locks := l'; g_workers := set_worker (g_workers s) i w'; g_trace := ev ++ g_trace s |}.
+Proof.
+  intros I HL A0 A1 Q Hsend Hhop Hnr.
+  constructor; cbn [g_pool g_locks g_workers g_trace].
+  - intros o r L. destruct (inv_pool_stored _ _ I _ _ L) as [w H]. exists w. apply in_or_app. now right.
+  - intros o S. apply (inv_stored_pool _ _ I). now apply stored_in_quiet with ev.
+  - intros R j u cur hop H. wcase j i.
+    + apply cleared_app. now apply (Hsend R u cur hop).
+    + apply cleared_app. now apply (inv_send _ _ I R j u cur hop).
+  - intros j u cur H. wcase j i; [now apply Hhop | now apply (inv_hop0 _ _ I j)].
+  - intros j o H. rewrite HL. wcase j i; [congruence | now apply (inv_acq_lock _ _ I j)].
+  - intros j k o Hjk Hj Hk. wcase j i; [congruence|]. wcase k i; [congruence|]. now apply (inv_excl _ _ I j k o).
+  - intros j o H. wcase j i; [congruence | now apply (inv_acq_pool _ _ I j)].
+  - intros j o H. wcase j i; [congruence|]. apply in_or_app. right. now apply (inv_acq_started _ _ I j).
+  - intros j u cur hop t n H. wcase j i; [rewrite H in A1; discriminate|].
+    destruct (inv_wait _ _ I j u cur hop t n H) as [t' Ht]. exists t'. apply in_or_app. now right.
+  - intros R. destruct (inv_norobots _ _ I R) as [N1 [N2 N3]]. repeat split.
+    + intros j. wcase j i; [assumption | apply N1].
+    + intros j u cur hop. wcase j i; [now apply Hnr | apply N2].
+    + intros e He. apply in_app_or in He. destruct He as [He|He]; [|now apply N3].
+      rewrite Forall_forall in Q. apply Q in He. destruct e; cbn in He; tauto.
+  - intros R. apply trace_all_quiet; [apply gate_quiet | assumption | now apply (inv_gate _ _ I)].
+  - apply trace_all_quiet; [apply once_quiet | assumption | apply (inv_once _ _ I)].
+  - apply trace_all_quiet; [apply acq_quiet | assumption | apply (inv_acq _ _ I)].
+Qed.
+
+Lemma lock_set_noop l o v : l o = v -> forall o2, lock_set l o v o2 = l o2.
+Proof.
+  intros H o2. destruct (origin_eq_dec o2 o) as [->|N]; [now rewrite lock_set_same | now apply lock_set_other].
+Qed.
+
+(* (B) the lock is taken and an acquisition begins *)
+Lemma inv_fetch_start cfg s i u cur hop :
+  inv cfg s -> c_robots cfg = true ->
+  g_workers s i = WLockWait u cur hop ->
+  g_locks s (u_origin cur) = false ->
+  pool_lookup (g_pool s) (u_origin cur) = None ->
+  inv cfg {| g_pool := g_pool s; g_locks := lock_set (g_locks s) (u_origin cur) true;
+             g_workers := set_worker (g_workers s) i (WRobotsSend u cur hop (robots_url (u_origin cur)) 0);
+             g_trace := [EvFetchStart i (u_origin cur)] ++ g_trace s |}.
+Proof.
+  intros I R W L P. set (o := u_origin cur) in *.
+  assert (Free : forall j, acq_of (g_workers s j) <> Some o).
+  { intros j H. apply (inv_acq_lock _ _ I) in H. congruence. }
+  constructor; cbn [g_pool g_locks g_workers g_trace app].
+  - intros o' r H. destruct (inv_pool_stored _ _ I _ _ H) as [w Hw]. exists w. now right.
+  - intros o' S. apply (inv_stored_pool _ _ I). apply stored_in_cons_other in S; [assumption | discriminate].
+  - intros _ j u' cur' hop' H. wcase j i; [discriminate|]. apply cleared_cons. now apply (inv_send _ _ I R j u' cur' hop').
+  - intros j u' cur' H. wcase j i.
+    + cbn [wcur] in H. injection H as <- <- ->. apply (inv_hop0 _ _ I i). now rewrite W.
+    + now apply (inv_hop0 _ _ I j).
+  - intros j o' H. wcase j i.
+    + cbn [acq_of] in H. injection H as <-. apply lock_set_same.
+    + destruct (origin_eq_dec o' o) as [->|N]; [apply lock_set_same|]. rewrite lock_set_other by assumption.
+      now apply (inv_acq_lock _ _ I j).
+  - intros j k o' Hjk Hj Hk. wcase j i.
+    + cbn [acq_of] in Hj. injection Hj as <-. wcase k i; [congruence | now apply (Free k)].
+    + wcase k i; [cbn [acq_of] in Hk; injection Hk as <-; now apply (Free j) | now apply (inv_excl _ _ I j k o')].
+  - intros j o' H. wcase j i; [cbn [acq_of] in H; now injection H as <- | now apply (inv_acq_pool _ _ I j)].
+  - intros j o' H. wcase j i; [cbn [acq_of] in H; injection H as <-; now left | right; now apply (inv_acq_started _ _ I j)].
+  - intros j u' cur' hop' t n H. wcase j i; [discriminate|].
+    destruct (inv_wait _ _ I j _ _ _ _ _ H) as [t' Ht]. exists t'. now right.
+  - congruence.
+  - intros _. split; [exact Logic.I | now apply (inv_gate _ _ I)].
+  - split; [|apply (inv_once _ _ I)]. cbn [once_cond]. now apply (not_stored_of_pool_none cfg).
+  - split; [exact Logic.I | apply (inv_acq _ _ I)].
+Qed.
+
+(* (C)/(D) the acquisition goes on: a request of the robots.txt session is sent / a redirect is followed *)
+Lemma inv_acq_continue cfg s i w' ev l' u cur hop :
+  inv cfg s ->
+  (forall o, l' o = g_locks s o) ->
+  wcur (g_workers s i) = Some (u, cur, hop) -> acq_of (g_workers s i) = Some (u_origin cur) ->
+  wcur w' = Some (u, cur, hop) -> acq_of w' = Some (u_origin cur) ->
+  ((ev = [] /\ exists t n, w' = WRobotsSend u cur hop t n) \/
+   (exists t n, ev = [EvRobotsReq i (u_origin cur) t] /\ w' = WRobotsWait u cur hop t n)) ->
+  inv cfg {| g_pool := g_pool s; g_locks := l'; g_workers := set_worker (g_workers s) i w'; g_trace := ev ++ g_trace s |}.
+Proof.
+  intros I HL C0 A0 C1 A1 Hev. set (o := u_origin cur) in *.
+  assert (Q : forall e, In e ev -> exists t, e = EvRobotsReq i o t).
+  { intros e He. destruct Hev as [[-> _]|[t [n [-> _]]]]; [destruct He|]. destruct He as [<-|[]]. now exists t. }
+  assert (NS : forall o', stored_in o' (ev ++ g_trace s) -> stored_in o' (g_trace s)).
+  { intros o' [w [r H]]. apply in_app_or in H. destruct H as [H|H]; [|now exists w, r].
+    apply Q in H. destruct H as [t H]. discriminate. }
+  constructor; cbn [g_pool g_locks g_workers g_trace].
+  - intros o' r H. destruct (inv_pool_stored _ _ I _ _ H) as [w Hw]. exists w. apply in_or_app. now right.
+  - intros o' S. apply (inv_stored_pool _ _ I). now apply NS.
+  - intros R j u' cur' hop' H. wcase j i.
+    + rewrite H in A1. discriminate.
+    + apply cleared_app. now apply (inv_send _ _ I R j u' cur' hop').
+  - intros j u' cur' H. wcase j i.
+    + rewrite C1 in H. injection H as <- <- ->. apply (inv_hop0 _ _ I i). exact C0.
+    + now apply (inv_hop0 _ _ I j).
+  - intros j o' H. rewrite HL. wcase j i.
+    + rewrite A1 in H. injection H as <-. now apply (inv_acq_lock _ _ I i).
+    + now apply (inv_acq_lock _ _ I j).
+  - intros j k o' Hjk Hj Hk. wcase j i.
+    + rewrite A1 in Hj. injection Hj as <-. wcase k i; [congruence|]. now apply (inv_excl _ _ I i k o).
+    + wcase k i; [|now apply (inv_excl _ _ I j k o')].
+      rewrite A1 in Hk. injection Hk as <-. now apply (inv_excl _ _ I j i o).
+  - intros j o' H. wcase j i; [|now apply (inv_acq_pool _ _ I j)].
+    rewrite A1 in H. injection H as <-. now apply (inv_acq_pool _ _ I i).
+  - intros j o' H. apply in_or_app. right. wcase j i; [|now apply (inv_acq_started _ _ I j)].
+    rewrite A1 in H. injection H as <-. now apply (inv_acq_started _ _ I i).
+  - intros j u' cur' hop' t n H. wcase j i.
+    + destruct Hev as [[_ [t0 [n0 Hw]]]|[t0 [n0 [-> Hw]]]]; rewrite Hw in H; [discriminate|].
+      injection H as <- <- <- <- <-. exists t0. now left.
+    + destruct (inv_wait _ _ I j _ _ _ _ _ H) as [t' Ht]. exists t'. apply in_or_app. now right.
+  - intros R. exfalso. destruct (inv_norobots _ _ I R) as [N1 _]. specialize (N1 i). congruence.
+  - intros R. destruct Hev as [[-> _]|[t [n [-> _]]]]; cbn [app trace_all]; [now apply (inv_gate _ _ I)|].
+    split; [exact Logic.I | now apply (inv_gate _ _ I)].
+  - destruct Hev as [[-> _]|[t [n [-> _]]]]; cbn [app trace_all]; [apply (inv_once _ _ I)|].
+    split; [|apply (inv_once _ _ I)]. cbn [once_cond]. apply (not_stored_of_pool_none cfg); [assumption|].
+    now apply (inv_acq_pool _ _ I i).
+  - destruct Hev as [[-> _]|[t [n [-> _]]]]; cbn [app trace_all]; [apply (inv_acq _ _ I)|].
+    split; [|apply (inv_acq _ _ I)]. cbn [acq_cond]. now apply (inv_acq_started _ _ I i).
+Qed.
+
+(* (E)/(F) the acquisition ends: the lock is released; either nothing is stored and the item is
+   postponed, or rules are stored and the verdict is taken from them in the same step *)
+Lemma inv_acq_end cfg s i u cur hop t n p' w' ev :
+  inv cfg s ->
+  g_workers s i = WRobotsWait u cur hop t n ->
+  ((p' = g_pool s /\ w' = WIdle /\ ev = [EvPostponed i u]) \/
+   (exists rules ev0, p' = pool_store (g_pool s) (u_origin cur) rules /\ ev = ev0 ++ [EvStored i (u_origin cur) rules] /\
+      ((is_allowed rules (c_ua cfg) (u_text cur) = true /\ w' = WFetchSend u cur hop /\ ev0 = []) \/
+       (w' = WIdle /\ ev0 = [EvSkipped i u])))) ->
+  inv cfg {| g_pool := p'; g_locks := lock_set (g_locks s) (u_origin cur) false;
+             g_workers := set_worker (g_workers s) i w'; g_trace := ev ++ g_trace s |}.
+Proof.
+  intros I W Hcase. set (o := u_origin cur) in *.
+  assert (A0 : acq_of (g_workers s i) = Some o) by now rewrite W.
+  assert (A1 : acq_of w' = None).
+  { destruct Hcase as [[_ [-> _]]|[rules [ev0 [_ [_ [[_ [-> _]]|[-> _]]]]]]]; reflexivity. }
+  assert (Other : forall j o', j <> i -> acq_of (g_workers s j) = Some o' -> o' <> o).
+  { intros j o' Hj H ->. now apply (inv_excl _ _ I j i o). }
+  assert (Old : forall e, In e (g_trace s) -> In e (ev ++ g_trace s)) by (intros e He; apply in_or_app; now right).
+  assert (Hp : forall o', o' <> o -> pool_lookup p' o' = pool_lookup (g_pool s) o').
+  { intros o' N. destruct Hcase as [[-> _]|[rules [ev0 [-> _]]]]; [reflexivity | now apply pool_lookup_store_other]. }
+  assert (Hs : forall o', o' <> o -> stored_in o' (ev ++ g_trace s) -> stored_in o' (g_trace s)).
+  { intros o' N [w [r H]]. apply in_app_or in H. destruct H as [H|H]; [exfalso | now exists w, r].
+    destruct Hcase as [[_ [_ ->]]|[rules [ev0 [_ [-> Hc]]]]].
+    - destruct H as [H|[]]. discriminate.
+    - apply in_app_or in H. destruct H as [H|[H|[]]].
+      + destruct Hc as [[_ [_ ->]]|[_ ->]]; [destruct H | destruct H as [H|[]]; discriminate].
+      + injection H as _ E _. congruence. }
+  constructor; cbn [g_pool g_locks g_workers g_trace].
+  - intros o' r H. destruct (origin_eq_dec o' o) as [->|N].
+    + destruct Hcase as [[-> _]|[rules [ev0 [-> [-> _]]]]].
+      * rewrite (inv_acq_pool _ _ I i o A0) in H. discriminate.
+      * rewrite pool_lookup_store_same in H. injection H as <-. exists i. apply in_or_app. left. apply in_or_app. right. now left.
+    + rewrite (Hp o' N) in H. destruct (inv_pool_stored _ _ I _ _ H) as [w Hw]. exists w. now apply Old.
+  - intros o' S. destruct (origin_eq_dec o' o) as [->|N].
+    + destruct Hcase as [[_ [_ ->]]|[rules [ev0 [-> _]]]].
+      * exfalso. apply stored_in_cons_other in S; [|discriminate].
+        now apply (not_stored_of_pool_none cfg s o I (inv_acq_pool _ _ I i o A0)).
+      * rewrite pool_lookup_store_same. discriminate.
+    + rewrite (Hp o' N). apply (inv_stored_pool _ _ I). now apply Hs.
+  - intros R j u' cur' hop' H. wcase j i.
+    + destruct Hcase as [[_ [-> _]]|[rules [ev0 [_ [-> [[Al [-> _]]|[-> _]]]]]]]; try discriminate.
+      injection H as <- <- <-. exists i, rules. split; [|assumption]. apply in_or_app. left. apply in_or_app. right. now left.
+    + apply cleared_app. now apply (inv_send _ _ I R j u' cur' hop').
+  - intros j u' cur' H. wcase j i; [|now apply (inv_hop0 _ _ I j)].
+    destruct Hcase as [[_ [-> _]]|[rules [ev0 [_ [_ [[_ [-> _]]|[-> _]]]]]]]; try discriminate.
+    cbn [wcur] in H. injection H as <- <- ->. apply (inv_hop0 _ _ I i). now rewrite W.
+  - intros j o' H. wcase j i; [congruence|].
+    rewrite lock_set_other by now apply (Other j). now apply (inv_acq_lock _ _ I j).
+  - intros j k o' Hjk Hj Hk. wcase j i; [congruence|]. wcase k i; [congruence|]. now apply (inv_excl _ _ I j k o').
+  - intros j o' H. wcase j i; [congruence|]. rewrite Hp by now apply (Other j). now apply (inv_acq_pool _ _ I j).
+  - intros j o' H. wcase j i; [congruence|]. apply Old. now apply (inv_acq_started _ _ I j).
+  - intros j u' cur' hop' t' n' H. wcase j i; [rewrite H in A1; discriminate|].
+    destruct (inv_wait _ _ I j _ _ _ _ _ H) as [t'' Ht]. exists t''. now apply Old.
+  - intros R. exfalso. destruct (inv_norobots _ _ I R) as [N1 _]. specialize (N1 i). congruence.
+  - intros R. destruct Hcase as [[_ [_ ->]]|[rules [ev0 [_ [-> Hc]]]]].
+    + split; [exact Logic.I | now apply (inv_gate _ _ I)].
+    + rewrite <- app_assoc. cbn [app].
+      destruct Hc as [[_ [_ ->]]|[_ ->]]; cbn [app trace_all gate_cond]; repeat split; now apply (inv_gate _ _ I).
+  - destruct Hcase as [[_ [_ ->]]|[rules [ev0 [_ [-> Hc]]]]].
+    + split; [exact Logic.I | apply (inv_once _ _ I)].
+    + rewrite <- app_assoc. cbn [app].
+      assert (NS : ~ stored_in o (g_trace s)) by exact (not_stored_of_pool_none cfg s o I (inv_acq_pool _ _ I i o A0)).
+      destruct Hc as [[_ [_ ->]]|[_ ->]]; cbn [app trace_all once_cond]; repeat split; try assumption; apply (inv_once _ _ I).
+  - destruct Hcase as [[_ [_ ->]]|[rules [ev0 [_ [-> Hc]]]]].
+    + split; [exact Logic.I | apply (inv_acq _ _ I)].
+    + rewrite <- app_assoc. cbn [app].
+      destruct Hc as [[_ [_ ->]]|[_ ->]]; cbn [app trace_all acq_cond]; repeat split;
+        try apply (inv_acq _ _ I); now apply (inv_wait _ _ I i u cur hop t n W).
+Qed.
+
+(* (G) the request for cur goes on the wire *)
+Lemma inv_fetch_send cfg s i u cur hop :
+  inv cfg s ->
+  g_workers s i = WFetchSend u cur hop ->
+  inv cfg {| g_pool := g_pool s; g_locks := g_locks s;
+             g_workers := set_worker (g_workers s) i (WFetchWait u cur hop);
+             g_trace := EvReq i u cur hop :: g_trace s |}.
+Proof.
+  intros I W.
+  constructor; cbn [g_pool g_locks g_workers g_trace].
+  - intros o r H. destruct (inv_pool_stored _ _ I _ _ H) as [w Hw]. exists w. now right.
+  - intros o S. apply (inv_stored_pool _ _ I). apply stored_in_cons_other in S; [assumption | discriminate].
+  - intros R j u' cur' hop' H. wcase j i; [discriminate|]. apply cleared_cons. now apply (inv_send _ _ I R j u' cur' hop').
+  - intros j u' cur' H. wcase j i; [|now apply (inv_hop0 _ _ I j)].
+    cbn [wcur] in H. injection H as <- <- ->. apply (inv_hop0 _ _ I i). now rewrite W.
+  - intros j o H. wcase j i; [discriminate | now apply (inv_acq_lock _ _ I j)].
+  - intros j k o Hjk Hj Hk. wcase j i; [discriminate|]. wcase k i; [discriminate|]. now apply (inv_excl _ _ I j k o).
+  - intros j o H. wcase j i; [discriminate | now apply (inv_acq_pool _ _ I j)].
+  - intros j o H. wcase j i; [discriminate|]. right. now apply (inv_acq_started _ _ I j).
+  - intros j u' cur' hop' t n H. wcase j i; [discriminate|].
+    destruct (inv_wait _ _ I j _ _ _ _ _ H) as [t' Ht]. exists t'. now right.
+  - intros R. destruct (inv_norobots _ _ I R) as [N1 [N2 N3]]. repeat split.
+    + intros j. wcase j i; [reflexivity | apply N1].
+    + intros j u' cur' hop'. wcase j i; [discriminate | apply N2].
+    + intros e [<-|He]; [exact Logic.I | now apply N3].
+  - intros R. split; [|now apply (inv_gate _ _ I)]. cbn [gate_cond]. split.
+    + intros ->. apply (inv_hop0 _ _ I i). now rewrite W.
+    + now apply (inv_send _ _ I R i u cur hop).
+  - split; [exact Logic.I | apply (inv_once _ _ I)].
+  - split; [exact Logic.I | apply (inv_acq _ _ I)].
+Qed.
+
+Ltac fin W :=
+  try solve [ now auto | now rewrite W | intros; discriminate | now repeat constructor
+            | intros; match goal with H : wcur _ = _ |- _ => cbn [wcur] in H; discriminate end
+            | intros; match goal with r : fetch_reply |- _ => destruct r; discriminate end ].
+
+Lemma inv_step cfg s s' : inv cfg s -> gstep cfg s s' -> inv cfg s'.
+Proof.
+  intros I St. destruct St as
+    [s i u Hi W | s i u cur hop f w' ev Hi W C | s i u cur hop w' ev keep Hi W L C | s i u cur hop t n Hi W
+    | s i u cur hop t n r p' w' ev keep Hi W C | s i u cur hop Hi W | s i u cur hop reply Hi W].
+  - (* pick *)
+    apply (inv_quiet_step cfg s i (WCheck u u false) [] (g_locks s)); fin W.
+    intros u' cur' H. cbn [wcur] in H. now injection H as <- <-.
+  - (* check *)
+    apply on_check_cases in C.
+    assert (Hh : forall w, wcur w = Some (u, cur, hop) -> forall u' cur', wcur w = Some (u', cur', false) -> cur' = u').
+    { intros w Hw u' cur' H. rewrite Hw in H. injection H as <- <- ->. apply (inv_hop0 _ _ I i). now rewrite W. }
+    destruct C as [| R | r R Lk A | R Lk];
+      apply (inv_quiet_step cfg s i _ _ (g_locks s)); fin W; try (now apply Hh); try congruence.
+    intros _ u' cur' hop' H. injection H as <- <- <-. now apply (cleared_of_pool cfg s cur r).
+  - (* lock *)
+    apply on_lock_cases in C.
+    assert (R : c_robots cfg = true).
+    { destruct (c_robots cfg) eqn:R; [reflexivity|]. destruct (inv_norobots _ _ I R) as [_ [N2 _]]. exfalso. now apply (N2 i u cur hop). }
+    assert (Hh : forall w, wcur w = Some (u, cur, hop) -> forall u' cur', wcur w = Some (u', cur', false) -> cur' = u').
+    { intros w Hw u' cur' H. rewrite Hw in H. injection H as <- <- ->. apply (inv_hop0 _ _ I i). now rewrite W. }
+    destruct C as [| r Lk A | Lk].
+    + apply (inv_quiet_step cfg s i WIdle _ _); fin W. now apply lock_set_noop.
+    + apply (inv_quiet_step cfg s i (WFetchSend u cur hop) [] _); fin W; try (now apply Hh).
+      * now apply lock_set_noop.
+      * intros _ u' cur' hop' H. injection H as <- <- <-. now apply (cleared_of_pool cfg s cur r).
+    + now apply inv_fetch_start.
+  - (* robots send *)
+    apply (inv_acq_continue cfg s i _ [EvRobotsReq i (u_origin cur) t] (g_locks s) u cur hop); fin W.
+    right. now exists t, n.
+  - (* robots response *)
+    apply on_robots_response_cases in C. destruct C as [t' n' | | rules A | rules A].
+    + apply (inv_acq_continue cfg s i _ [] _ u cur hop); fin W.
+      * apply lock_set_noop. apply (inv_acq_lock _ _ I i). now rewrite W.
+      * left. split; [reflexivity | now exists t', n'].
+    + apply (inv_acq_end cfg s i u cur hop t n); try assumption. now left.
+    + apply (inv_acq_end cfg s i u cur hop t n); try assumption. right. exists rules, []. repeat split. left. now repeat split.
+    + apply (inv_acq_end cfg s i u cur hop t n); try assumption. right. exists rules, [EvSkipped i u]. repeat split. right. now split.
+  - (* fetch send *)
+    now apply inv_fetch_send.
+  - (* fetch response *)
+    change (g_trace s) with ([] ++ g_trace s).
+    apply (inv_quiet_step cfg s i _ [] (g_locks s)); fin W.
+    now destruct reply.
+Qed.
+
+Theorem inv_reachable cfg s : reachable cfg s -> inv cfg s.
+Proof. induction 1 as [|s s' _ IH St]; [apply inv_init | now apply (inv_step cfg s)]. Qed.
+
+(* ------------------------------------------------------------------ *)
+(* 8. the property theorems over every reachable state                  *)
+(* ------------------------------------------------------------------ *)
+Lemma in_split_trace (e : event) t : In e t -> exists a b, t = a ++ e :: b.
+Proof. apply in_split. Qed.
+
+(* no disallowed URL is requested, and robots.txt of the origin is obtained first: every request of
+   an item's session (initial or redirect hop) comes after rules for the origin of the requested
+   URL were stored - by a worker that had requested robots.txt for that origin before - and
+   those rules allow the URL *)
+Theorem gate cfg s :
+  c_robots cfg = true -> reachable cfg s ->
+  forall t2 w u cur hop t1, g_trace s = t2 ++ EvReq w u cur hop :: t1 ->
+    (hop = false -> cur = u) /\
+    exists w' r t0,
+      In (EvStored w' (u_origin cur) r) t1 /\ is_allowed r (c_ua cfg) (u_text cur) = true /\
+      In (EvRobotsReq w' (u_origin cur) t0) t1.
+Proof.
+  intros R Hr t2 w u cur hop t1 E. pose proof (inv_reachable _ _ Hr) as I.
+  pose proof (trace_all_split _ _ (inv_gate _ _ I R) _ _ _ E) as G. cbn [gate_cond] in G.
+  destruct G as [G1 [w' [r [Hin A]]]]. split; [assumption|].
+  destruct (in_split _ _ Hin) as [a [b Eb]].
+  assert (E2 : g_trace s = (t2 ++ EvReq w u cur hop :: a) ++ EvStored w' (u_origin cur) r :: b).
+  { rewrite E, Eb, <- app_assoc. reflexivity. }
+  pose proof (trace_all_split _ _ (inv_acq _ _ I) _ _ _ E2) as [t0 Ht0]. 
+  exists w', r, t0. repeat split; try assumption. rewrite Eb. apply in_or_app. right. now right.
+Qed.
+
+(* the rules of an origin are stored at most once, so "the rules" is well defined *)
+Theorem stored_once cfg s :
+  reachable cfg s ->
+  forall t2 w o r t1, g_trace s = t2 ++ EvStored w o r :: t1 -> forall w' r', ~ In (EvStored w' o r') t1.
+Proof.
+  intros Hr t2 w o r t1 E w' r' Hin. pose proof (inv_reachable _ _ Hr) as I.
+  pose proof (trace_all_split _ _ (inv_once _ _ I) _ _ _ E) as G. cbn [once_cond] in G. apply G. now exists w', r'.
+Qed.
+
+(* not requested again once obtained: after rules are stored for an origin no robots.txt
+   acquisition for it begins and no request of a robots.txt session for it is sent *)
+Theorem once_per_origin cfg s :
+  reachable cfg s ->
+  forall t2 e t1 w o, g_trace s = t2 ++ e :: t1 ->
+    (e = EvFetchStart w o \/ exists t, e = EvRobotsReq w o t) ->
+    forall w' r, ~ In (EvStored w' o r) t1.
+Proof.
+  intros Hr t2 e t1 w o E He w' r Hin. pose proof (inv_reachable _ _ Hr) as I.
+  pose proof (trace_all_split _ _ (inv_once _ _ I) _ _ _ E) as G.
+  destruct He as [->|[t ->]]; cbn [once_cond] in G; apply G; now exists w', r.
+Qed.
+
+(* at most one acquisition per origin is in progress, whatever the number of workers *)
+Theorem one_acquisition_at_a_time cfg s :
+  reachable cfg s -> forall i j o, i <> j -> acq_of (g_workers s i) = Some o -> acq_of (g_workers s j) = Some o -> False.
+Proof. intros Hr. exact (inv_excl _ _ (inv_reachable _ _ Hr)). Qed.
+
+(* every request of a robots.txt session belongs to an acquisition its worker began *)
+Theorem robots_request_in_acquisition cfg s :
+  reachable cfg s ->
+  forall t2 w o t t1, g_trace s = t2 ++ EvRobotsReq w o t :: t1 -> In (EvFetchStart w o) t1.
+Proof.
+  intros Hr t2 w o t t1 E. pose proof (inv_reachable _ _ Hr) as I.
+  exact (trace_all_split _ _ (inv_acq _ _ I) _ _ _ E).
+Qed.
+
+(* an origin whose robots.txt was never obtained (5xx / network errors every time) has none of its URLs requested *)
+Theorem never_obtained_never_requested cfg s o :
+  c_robots cfg = true -> reachable cfg s ->
+  (forall w r, ~ In (EvStored w o r) (g_trace s)) ->
+  forall w u cur hop, u_origin cur = o -> ~ In (EvReq w u cur hop) (g_trace s).
+Proof.
+  intros R Hr Hn w u cur hop <- Hin. destruct (in_split _ _ Hin) as [a [b E]].
+  destruct (gate cfg s R Hr _ _ _ _ _ _ E) as [_ [w' [r [t0 [Hs _]]]]].
+  apply (Hn w' r). rewrite E. apply in_or_app. right. now right.
+Qed.
+
+(* with robots off the machinery is inert *)
+Theorem robots_off_no_robots_traffic cfg s :
+  c_robots cfg = false -> reachable cfg s ->
+  forall e, In e (g_trace s) -> match e with EvFetchStart _ _ | EvRobotsReq _ _ _ | EvStored _ _ _ => False | _ => True end.
+Proof. intros R Hr. exact (proj2 (proj2 (inv_norobots _ _ (inv_reachable _ _ Hr) R))). Qed.
+
+(* ------------------------------------------------------------------ *)
+(* 9. the step function used to replay observed runs                    *)
+(* ------------------------------------------------------------------ *)
+Lemma step_fun_sound cfg s l s' : step_fun cfg s l = Some s' -> gstep cfg s s'.
+Proof.
+  destruct l as [i u|i f|i|i|i r|i|i reply]; cbn [step_fun];
+    (destruct (Nat.ltb i (c_workers cfg)) eqn:Lt; cbn [negb]; [apply Nat.ltb_lt in Lt | discriminate]);
+    destruct (g_workers s i) eqn:W; try discriminate.
+  - intros H. injection H as <-. now apply StepPick.
+  - destruct (on_check cfg (g_pool s) i item cur hop f) as [w' ev] eqn:C. intros H. injection H as <-.
+    now apply StepCheck with (u := item) (cur := cur) (hop := hop) (filters_ok := f).
+  - destruct (g_locks s (u_origin cur)) eqn:L; [discriminate|].
+    destruct (on_lock cfg (g_pool s) i item cur hop) as [[w' ev] keep] eqn:C. intros H. injection H as <-.
+    now apply StepLock with (u := item) (cur := cur) (hop := hop).
+  - intros H. injection H as <-. now apply StepRobotsSend with (u := item) (cur := cur) (hop := hop) (t := target) (n := n).
+  - destruct (on_robots_response cfg (g_pool s) i item cur hop n r) as [[[p' w'] ev] keep] eqn:C. intros H. injection H as <-.
+    now apply StepRobotsResp with (u := item) (cur := cur) (hop := hop) (t := target) (n := n) (r := r).
+  - intros H. injection H as <-. now apply StepFetchSend with (u := item) (cur := cur) (hop := hop).
+  - intros H. injection H as <-. now apply StepFetchResp with (u := item) (cur := cur) (hop := hop).
+Qed.
+
+Lemma run_labels_reachable cfg ls : forall s s', reachable cfg s -> run_labels cfg s ls = Some s' -> reachable cfg s'.
+Proof.
+  induction ls as [|l ls IH]; intros s s' Hr; cbn [run_labels].
+  - intros H. now injection H as <-.
+  - destruct (step_fun cfg s l) as [s1|] eqn:E; [|discriminate]. intros H.
+    apply (IH s1 s'); [|assumption]. apply ReachStep with s; [assumption | now apply (step_fun_sound cfg s l)].
 Qed.
 
 (* ------------------------------------------------------------------ *)
-(* 7. status table, whole file, nofollow                                *)
+(* 10. status table, whole file, 5xx visits, nofollow                   *)
 (* ------------------------------------------------------------------ *)
-(* what a FINAL (non-redirect) robots.txt response does to the pool and to the item *)
-Lemma final_response_table cfg p i u n s hl loc body :
+(* what a FINAL (non-redirect) robots.txt response does to the pool, the lock and the item *)
+Lemma final_response_table cfg p i u cur hop n s hl loc body :
   is_redirect_status s = false ->
-  on_robots_response cfg p i u n (Resp s hl loc body) =
-    if (500 <=? s) && (s <=? 599) then (p, WIdle, [EvPostponed i u])
+  on_robots_response cfg p i u cur hop n (Resp s hl loc body) =
+    if (500 <=? s) && (s <=? 599) then (p, WIdle, [EvPostponed i u], false)
     else let rules := if s =? 200 then parse_robots body else [] in
-         let '(w, ev) := decide cfg i u rules in
-         (pool_store p (u_origin u) rules, w, ev ++ [EvStored i (u_origin u) rules]).
+         let '(w, ev) := decide cfg i u cur hop rules in
+         (pool_store p (u_origin cur) rules, w, ev ++ [EvStored i (u_origin cur) rules], false).
 Proof.
   intros H. unfold on_robots_response. rewrite (session_final _ _ _ _ _ _ H). unfold status_action.
   destruct ((500 <=? s) && (s <=? 599)); [reflexivity|]. destruct (s =? 200); reflexivity.
 Qed.
 
-Lemma missing_allows cfg p i u n s hl loc body :
+Lemma missing_allows cfg p i u cur hop n s hl loc body :
   is_redirect_status s = false -> ~ (500 <= s <= 599) -> s <> 200 ->
-  on_robots_response cfg p i u n (Resp s hl loc body) =
-    (pool_store p (u_origin u) [], WFetchSend u u false, [EvStored i (u_origin u) []])
+  on_robots_response cfg p i u cur hop n (Resp s hl loc body) =
+    (pool_store p (u_origin cur) [], WFetchSend u cur hop, [EvStored i (u_origin cur) []], false)
   /\ forall ua url, is_allowed [] ua url = true.
 Proof.
-  intros H1 H2 H3. split; [|reflexivity]. rewrite (final_response_table _ _ _ _ _ _ _ _ _ H1).
+  intros H1 H2 H3. split; [|reflexivity]. rewrite (final_response_table _ _ _ _ _ _ _ _ _ _ _ H1).
   destruct ((500 <=? s) && (s <=? 599)) eqn:E; [lia|]. destruct (s =? 200) eqn:E2; [lia|]. reflexivity.
 Qed.
 
-Lemma server_error_postpones cfg p i u n s hl loc body :
+(* a 5xx answer stores nothing, releases the lock, sends nothing for the item and hands the item to
+   handle_error (status error, try count + 1) *)
+Lemma server_error_postpones cfg p i u cur hop n s hl loc body :
   500 <= s <= 599 ->
-  on_robots_response cfg p i u n (Resp s hl loc body) = (p, WIdle, [EvPostponed i u]).
+  on_robots_response cfg p i u cur hop n (Resp s hl loc body) = (p, WIdle, [EvPostponed i u], false).
 Proof.
   intros H. assert (R : is_redirect_status s = false) by (unfold is_redirect_status; lia).
-  rewrite (final_response_table _ _ _ _ _ _ _ _ _ R).
+  rewrite (final_response_table _ _ _ _ _ _ _ _ _ _ _ R).
   destruct ((500 <=? s) && (s <=? 599)) eqn:E; [reflexivity | lia].
 Qed.
 
-Lemma whole_file cfg p i u n hl loc body :
-  exists w ev, on_robots_response cfg p i u n (Resp 200 hl loc body) =
-               (pool_store p (u_origin u) (parse_robots body), w, ev)
-               /\ pool_lookup (pool_store p (u_origin u) (parse_robots body)) (u_origin u) = Some (parse_robots body).
+(* as long as robots.txt answers 5xx an item is visited exactly [tries] times - one acquisition
+   attempt each, never a request for its URL - and then skipped with try count tries + 1 *)
+Lemma visits_5xx_run tries d : forall k st a fuel,
+  (0 < tries)%nat -> (k + d = tries)%nat -> (st = StTodo \/ st = StError) -> (d + 1 < fuel)%nat ->
+  visits_5xx fuel tries {| it_status := st; it_tries := k |} a = ({| it_status := StSkipped; it_tries := S tries |}, (a + d)%nat).
 Proof.
-  rewrite final_response_table by reflexivity. cbn [N.leb N.eqb andb Pos.eqb].
-  change ((500 <=? 200) && (200 <=? 599)) with false. change (200 =? 200) with true. cbv iota.
-  destruct (decide cfg i u (parse_robots body)) as [w ev]. exists w, (ev ++ [EvStored i (u_origin u) (parse_robots body)]).
-  split; [reflexivity|]. rewrite pool_lookup_store, origin_eqb_refl. reflexivity.
+  induction d as [|d IH]; intros k st a fuel Ht Hk Hst Hf.
+  - destruct fuel as [|[|fuel]]; try lia. cbn [visits_5xx it_status].
+    assert (E : visit_5xx tries {| it_status := st; it_tries := k |} = ({| it_status := StSkipped; it_tries := S k |}, 0, 0)%nat).
+    { unfold visit_5xx. cbn [it_tries]. destruct (Nat.eqb_spec tries 0); [lia|]. destruct (Nat.ltb_spec k tries); [lia|]. reflexivity. }
+    destruct Hst as [-> | ->]; rewrite E; cbn [visits_5xx it_status]; repeat f_equal; lia.
+  - destruct fuel as [|fuel]; [lia|]. cbn [visits_5xx it_status].
+    assert (E : visit_5xx tries {| it_status := st; it_tries := k |} = ({| it_status := StError; it_tries := S k |}, 1, 0)%nat).
+    { unfold visit_5xx. cbn [it_tries]. destruct (Nat.eqb_spec tries 0); [lia|]. destruct (Nat.ltb_spec k tries); [|lia]. reflexivity. }
+    destruct Hst as [-> | ->]; rewrite E; rewrite (IH (S k) StError); try lia; try (now right); f_equal; lia.
+Qed.
+
+Lemma visits_5xx_total tries fuel :
+  (0 < tries)%nat -> (tries + 1 < fuel)%nat ->
+  visits_5xx fuel tries {| it_status := StTodo; it_tries := 0 |} 0 = ({| it_status := StSkipped; it_tries := S tries |}, tries).
+Proof. intros H1 H2. rewrite (visits_5xx_run tries tries 0 StTodo 0 fuel); auto. Qed.
+
+Lemma visit_5xx_no_request tries it : snd (visit_5xx tries it) = 0%nat.
+Proof. unfold visit_5xx. destruct (_ || _); reflexivity. Qed.
+
+Lemma whole_file cfg p i u cur hop n hl loc body :
+  exists w ev, on_robots_response cfg p i u cur hop n (Resp 200 hl loc body) =
+               (pool_store p (u_origin cur) (parse_robots body), w, ev, false)
+               /\ pool_lookup (pool_store p (u_origin cur) (parse_robots body)) (u_origin cur) = Some (parse_robots body).
+Proof.
+  rewrite final_response_table by reflexivity.
+  change ((500 <=? 200) && (200 <=? 599)) with false. change (200 =? 200) with true. cbv iota zeta.
+  destruct (decide cfg i u cur hop (parse_robots body)) as [w ev]. exists w, (ev ++ [EvStored i (u_origin cur) (parse_robots body)]).
+  split; [reflexivity|]. apply pool_lookup_store_same.
 Qed.
 
 Lemma robots_cannot_follow_spec e :
